@@ -449,6 +449,11 @@ class Builder:
                         else:
                             ret = a
                         continue
+                    if inp and self._ok_or_assert(e, inp):
+                        # `found.ok_or_else(|| ErrMode::assert(input, ".."))`: a value computed from what was parsed; the
+                        # input is mentioned only to build winnow's assertion error (whether that can happen: C03)
+                        ret = e
+                        continue
                     if inp and self._always_ok(e) and not F.find_all(e, lambda n_: n_.get("k") == "path" and n_["segs"] == [inp]):
                         # value-level code choosing between several `Ok(..)` (a match / if over what was parsed): it reads no
                         # input and cannot fail
@@ -626,6 +631,17 @@ class Builder:
         init = {"k": "closure", "l": l, "params": [], "body": {"k": "mcall", "l": l, "recv": accp, "m": "clone", "targs": [], "args": []}, "move": True}
         step = {"k": "closure", "l": l, "params": [{"k": "ident", "l": l, "name": acc, "by_ref": False, "mut": False, "sub": None}, pat["elems"][0]], "body": asg["rhs"], "move": False}
         return N("fold", w, p=N("rep", w, min=0, max=None, p=inv["alts"][0], from_while=w), init=init, step=step, from_while=w)
+
+    def _ok_or_assert(self, e, inp):
+        if not (e.get("k") == "mcall" and e["m"] == "ok_or_else" and len(e["args"]) == 1 and e["args"][0].get("k") == "closure"):
+            return False
+        clo = e["args"][0]
+        body = clo["body"]
+        while body.get("k") == "block" and len(body["stmts"]) == 1 and body["stmts"][0]["k"] == "expr":
+            body = body["stmts"][0]["e"]
+        if not (body.get("k") == "call" and body["f"].get("k") == "path" and body["f"]["segs"][-1] == "assert" and len(body["f"]["segs"]) >= 2):
+            return False
+        return not F.find_all(e["recv"], lambda n_: n_.get("k") == "path" and n_["segs"] == [inp])
 
     def _always_ok(self, e, depth=0):
         """Every way through `e` ends in `Ok(..)` or diverges (unreachable!/panic!)."""
@@ -1150,6 +1166,9 @@ class Builder:
                 ts = self._some_tokens(args[0], env)
                 if ts is not None:
                     return N("tokset", e, toks=ts, neg=False, vmap=args[0], vmod=tuple(env["__module"]))
+            tv = self._tuple_verify_map(e, p, args[0], env)
+            if tv is not None:
+                return tv
             return N("verify", e, p=p, f=args[0], vmap=True)
         if m == "and_then" and len(args) == 1:
             return N("andthen", e, outer=self.pe(recv, env), inner=self.pe(args[0], env))
@@ -1245,6 +1264,31 @@ class Builder:
             self.stack.pop()
         return dict(node, expanded_from=fn.key) if isinstance(node, dict) else node
 
+    def _tuple_verify_map(self, e, p, f, env):
+        """`(A, any, ..).verify_map(|(a, c, ..)| match c { 'x' => Some(..), _ => None })`: whether the function yields Some
+        depends on the one unconstrained character only (decided by evaluating it with the other components unknown); the
+        whole is then the tuple with that character restricted to the accepted set, mapped by the function's Some-value."""
+        if not (p["t"] == "seq" and p.get("tuple") and f.get("k") == "closure" and len(f["params"]) == 1):
+            return None
+        idx = [i for i, it in enumerate(p["items"]) if it["p"]["t"] == "any"]
+        if len(idx) != 1:
+            return None
+        from . import probe as P
+
+        k_ = idx[0]
+
+        def wrap(c_):
+            return [c_ if i == k_ else P.Opq("component %d" % i) for i in range(len(p["items"]))]
+
+        cs = self._some_set(f, env, p["items"][k_]["p"], wrap=wrap)
+        if cs is None:
+            return None
+        items = [dict(it) for it in p["items"]]
+        items[k_] = dict(items[k_], p=N("set", e, cs=cs, min=1, max=1, one=True))
+        body = {"k": "mcall", "l": f.get("l"), "recv": f["body"], "m": "unwrap", "targs": [], "args": []}
+        f2 = dict(f, body=body)
+        return N("map", e, p=dict(p, items=items), f=f2, from_verify_map=True)
+
     def _unit_values(self, f, env, cs):
         """[(char, path expression of the constant)] when the function maps every accepted character to a field-less enum
         variant (in source order of the characters' first mention), else None."""
@@ -1297,7 +1341,7 @@ class Builder:
             return None
         return out
 
-    def _some_set(self, f, env, p):
+    def _some_set(self, f, env, p, wrap=None):
         """The characters on which a char -> Option<_> function yields Some.  The function is evaluated (vlib/probe.py) on
         every character it or its helpers mention and on fresh representatives of every other kind of character; it is a
         finite set exactly when every fresh representative is refused."""
@@ -1342,7 +1386,7 @@ class Builder:
             for c_ in sorted(mentioned) + fresh:
                 if not cs_has(base, c_):
                     continue
-                r = pr.apply(fv, [c_])
+                r = pr.apply(fv, [c_ if wrap is None else wrap(c_)])
                 if r is None:
                     rej.append(c_)
                 elif isinstance(r, tuple) and r and r[0] == "some":
